@@ -89,14 +89,15 @@ def fma (a b c : DD) : DD :=
   let (p0, p1) := twoSum f p0 (F64.add f (F64.add f p1 p2) p3)
   ⟨p0, p1⟩
 
-/-- `dd::operator/=`. -/
+/-- `dd::operator/=`: a zero divisor gives NaN (0/0) or `setinf(signbit(hi) != signbit(rhs.hi))`; the residual
+    refinement runs only when the approximate quotient AND the divisor's head are finite (finite / inf is the signed zero q1). -/
 def div (a b : DD) : DD :=
   if a.isnan then a
   else if b.isnan then b
-  else if b.iszero then (if a.iszero then qnan else infpos)
+  else if b.iszero then (if a.iszero then qnan else ⟨.inf (a.hi.sign != b.hi.sign), pzero⟩)
   else
     let q1 := F64.div f a.hi b.hi
-    if q1.isFinite then
+    if q1.isFinite && b.hi.isFinite then
       let r := fma f (ofF q1.neg) b a
       let q2 := F64.div f r.hi b.hi
       let r := fma f (ofF q2.neg) b r
@@ -136,9 +137,11 @@ def mulDD (a b : F) : DD :=
 /-- `mul_pwr2(dd, double)`. -/
 def mulPwr2 (a : DD) (b : F) : DD := ⟨F64.mul f a.hi b, F64.mul f a.lo b⟩
 
-/-- `sqrt(dd)` with DOUBLEDOUBLE_NATIVE_SQRT (Karp's trick). Negative arguments only print a message. -/
+/-- `sqrt(dd)` with DOUBLEDOUBLE_NATIVE_SQRT (Karp's trick). Negative arguments only print a message; `+inf` is returned
+    unchanged. -/
 def sqrt (a : DD) : DD :=
   if a.iszero then ⟨pzero, pzero⟩ else
+  if a.hi == .inf false then a else      -- `if (a.isinf(INF_TYPE_POSITIVE)) return a;`
   let one := ofNatExact f 1
   let x := F64.div f one (F64.sqrt f a.hi)
   let ax := F64.mul f a.hi x
@@ -160,11 +163,35 @@ def cmpMask (a b : DD) : Nat :=
   (if eq then 1 else 0) + (if !eq then 2 else 0) + (if lt then 4 else 0) + (if lt || eq then 8 else 0)
     + (if gt then 16 else 0) + (if !lt then 32 else 0)
 
-/-- `convert_signed(int64_t)` / `convert_unsigned(uint64_t)`: the leading limb only. -/
-def ofInt64 (v : Int) : DD := if v = 0 then ⟨pzero, pzero⟩ else ⟨ofInt f v, pzero⟩
+/-- `convert_signed(int64_t)` / `convert_unsigned(uint64_t)`: the two halves of the integer (both exact doubles) and an
+    inline quick_two_sum:
+      `low = v & 0xFFFFFFFF;  h = double(v - low);  l = double(low);  hi = h + l;  lo = l - (hi - h);`
+    (`v & 0xFFFFFFFF` of a two's-complement int64 is `v mod 2^32`, non-negative). -/
+def ofInt64 (v : Int) : DD :=
+  if v = 0 then ⟨pzero, pzero⟩ else
+  let low := v % (2 ^ 32 : Int)
+  let h := ofInt f (v - low)
+  let l := ofInt f low
+  let hi := F64.add f h l
+  ⟨hi, F64.sub f l (F64.sub f hi h)⟩
 
-/-- `convert_to_signed<long long>()`: `int64(hi) + int64(lo)` (wrapping). -/
-def toInt64 (a : DD) : Int := wrapI64 (toI64 f a.hi + toI64 f a.lo)
+/-- the correction of `l = int64(lo)` in `convert_to_signed` / `convert_to_unsigned`:
+      `double f = lo - std::trunc(lo);
+       if (hi == std::trunc(hi)) { if (hi > 0.0 && f < 0.0) --l;  if (hi < 0.0 && f > 0.0) ++l; }` -/
+def tailAdjust (hi lo : F) : Int :=
+  let fr := fracPart f lo
+  if isIntegral f hi then
+    (if fgt hi pzero && flt fr pzero then -1 else 0) + (if flt hi pzero && fgt fr pzero then 1 else 0)
+  else 0
+
+/-- `convert_to_signed<long long>()`: `int64(hi) + (int64(lo) corrected)` (wrapping): the value truncated toward zero. -/
+def toInt64 (a : DD) : Int := wrapI64 (toI64 f a.hi + toI64 f a.lo + tailAdjust f a.hi a.lo)
+
+/-- `convert_to_unsigned<unsigned long long>()`: the head through `int64_t` below 2^63 (as before the repair) and through
+    `uint64_t` from 2^63 on (NaN compares false with 2^63 and takes the second branch); 64-bit pattern of `h + uint64_t(l)`. -/
+def toUInt64 (a : DD) : Nat :=
+  let h : Nat := if flt a.hi (ofNatExact f (2 ^ 63)) then ofSigned 64 (toI64 f a.hi) else toU64 f a.hi
+  ofSigned 64 ((h : Int) + toI64 f a.lo + tailAdjust f a.hi a.lo)
 
 /-- `convert_to_ieee754<double>()`: `hi + lo`. -/
 def toDouble (a : DD) : F := F64.add f a.hi a.lo
